@@ -29,6 +29,8 @@ CLAIMED = {
          "sequence lengths 4/2, two host features; quick uses concrete coordinates; data races and reflection-based observers are outside"),
  "C12": ("§4 C12", "Repair is executed on tables of 2-3 same/different-class features with symbolic coordinates and partial flags on either strand (incl. joins): no panic, idempotent, unchanged without an abutting 3'/5'-partial pair (any abutting pair for source), merges only with such a pair, per-class coverage unchanged; and on slice;...;concat;repair round trips with 1-2 symbolic cut positions restoring class-unique features exactly.",
          "restoration is asserted for cuts that fall strictly inside a part or miss the feature, and for joins with ascending disjoint parts (see DESIGN §6 for why the remaining cases are not decidable from the table); table sizes bounded"),
+ "C13": ("§4 C13", "cache.Create/Write/Close then one fault then cache.Open are executed over an in-memory file system with symbolic body bytes, symbolic root/data digests and a symbolic fault (flip of any byte by any non-zero mask, any truncation, appended bytes, other digests, another entry's content, every crash point of the write protocol): Open succeeds only if the file is bytewise the finished entry opened with its own digests, and then reads back the written bytes.",
+         "stubs: in-memory FS, identity flate, uninterpreted 2-byte digest with collision-freeness assumed between the compared inputs and a non-zero root digest; real OS failure modes are outside; counterexamples replay on real files with real flate and SHA-1"),
  "C16": ("§4 C16", "fromOriginLength(toOriginLength(n))=n, strict monotonicity and an independently written layout formula are proved for every n in [0,4e18] in one query each; NewOrigin/Bytes layout is executed on symbolic residues for bounded lengths.",
          "layout harness lengths bounded as stated in the evidence"),
  "C17": ("§4 C17", "FastaWriter/wrap.Force/FastaParser/Scanner are executed on records with symbolic descriptions and symbolic residues (printable minus '>') at lengths around the 70-column boundaries, 1-3 records per stream: same count, descriptions and residues; GenBank->FASTA conversion keeps residues and builds the documented description (also for slices).",
